@@ -256,5 +256,9 @@ def _lossless_rule(chk, m):
                 kw = [k.arg for k in c.keywords]
                 chk.judge('timespec' not in kw and len(c.args) <= 1, 'C40.lossless', c, '%s: %s keeps full (microsecond) precision' % (q, src(c)),
                           'isoformat is given a precision limit (%s): the sub-millisecond part of an instant is dropped on serialization and does not come back' % src(c))
+            if isinstance(c, ast.Call) and isinstance(c.func, ast.Attribute) and c.func.attr == 'strftime':
+                n += 1
+                chk.viol('C40.lossless', c, '%s: %s' % (q, src(c)), 'the text form is produced by strftime: the C library does not zero-pad %Y, so a date before year 1000 is written '
+                         'as e.g. 999-12-31, which the reader (strptime with the same format) rejects and hands back as a raw string')
     if n < 2:
-        raise AnalysisError('C40.lossless: isoformat() calls in the TypeIO serializers not found (%d)' % n)
+        raise AnalysisError('C40.lossless: date / time formatting calls in the TypeIO serializers not found (%d)' % n)
